@@ -67,7 +67,7 @@ PROPS = {
     "C01": P(workloads="mq-conc steady, view, quiesce, teardown-orders, handle-churn, last-sender, add-stream-sole (plain and futures handles, every receive entry point); Miri slice"),
     "C02": P(workloads="mq-conc steady, view, quiesce, last-sender with multi-producer stalls (claimed-unpublished slots); Miri slice"),
     "C03": P(workloads="mq-conc steady, view, remove-stream, wrap-slow-clone, add-stream-sole with slow consumers and stalls in the writer's scan; quiescent fill counts; Miri slice"),
-    "C04": P(workloads="mq-conc wrap-slow-clone and view with stalls inside clone / view closure; AddressSanitizer shards; Miri with the data-race detector (broadcast, mpmc single consumer)"),
+    "C04": P(workloads="mq-conc wrap-slow-clone, view, steady and handle-churn (clones used by a helper thread and dropped while the original keeps receiving) with stalls inside clone / view closure; AddressSanitizer shards; Miri with the data-race detector (broadcast, mpmc single consumer)"),
     "C05": P(q=100, workloads="mq-seq with every teardown permutation, mq-conc teardown-orders / no-receiver / steady, AddressSanitizer shards, Miri with leak checking; one shard exercises the open finding (two streams on a move-out queue)"),
     "C06": P(workloads="quiescent probe after every mq-conc family; dedicated quiesce family"),
     "C07": P(workloads="mq-conc last-sender (drops racing receives on shared and separate streams, blocking and non-blocking entry points)"),
@@ -113,7 +113,8 @@ def jobs_for(prop, tier, seed):
         J += conc(prop, seed, ["steady", "view", "remove-stream", "wrap-slow-clone", "add-stream-sole"], n, s)
         J.append(miri(prop, seed, "steady", ["conc", "--families", "steady,wrap-slow-clone", "--runs", "2", "--fl", "broadcast"], ms, mt, {"*": "C03,C04,C16"}, base=11))
     elif prop == "C04":
-        J += conc(prop, seed, ["wrap-slow-clone", "view", "wrap-slow-clone", "steady"], n - 4, s)
+        J += conc(prop, seed, ["wrap-slow-clone", "view", "wrap-slow-clone", "steady", "handle-churn"], n - 4, s,
+                  extra=[[], ["--fl", "broadcast"]])
         J += conc(prop, seed, ["wrap-slow-clone", "view"], 4, s, label="asan", variant="asan", base=50,
                   tool_props={"*": "C04,C16"})
         J.append(miri(prop, seed, "slowclone", ["conc", "--families", "wrap-slow-clone,view", "--runs", "2", "--fl", "broadcast"], ms + 4, mt, {"*": "C04"}, base=13))
@@ -128,8 +129,7 @@ def jobs_for(prop, tier, seed):
         J += conc(prop, seed, ["quiesce", "quiesce", "steady", "remove-stream", "handle-churn", "add-stream-sole",
                                "last-sender", "view", "wrap-slow-clone"], n, s)
     elif prop == "C07":
-        J += conc(prop, seed, ["last-sender"], n, s)
-        J.append(miri(prop, seed, "lastsender", ["conc", "--families", "last-sender", "--runs", "2"], ms, mt, {"*": "C07,C04,C16", "miri-deadlock": "C08"}, no_race=True, base=19))
+XX, ["conc", "--families", "last-sender", "--runs", "2"], ms, mt, {"*": "C07,C04,C16", "miri-deadlock": "C08"}, no_race=True, base=19))
     elif prop == "C08":
         J += shard_jobs(prop, seed, ["wake"], n, s, "wake")
         J.append(miri(prop, seed, "wake", ["wake", "--runs", "2"], ms, mt, {"*": "C08", "miri-deadlock": "C08"}, no_race=True, base=23))
